@@ -3935,6 +3935,178 @@ def k_get_list(E, tier):
     return rec
 
 
+def k_bubble(E, tier):
+    """C20 (bubbling wiring): when an item that cannot live inside a style rule (a @media or other at-rule
+    with its own copy of the selector, a nested rule) reaches a RuleDest, the declarations collected so far
+    are committed first and the item is then handed, unchanged, to the parent — so it is emitted at the outer
+    level, after what preceded it and before what follows; committing swaps in a *fresh* rule with the same
+    selectors (later declarations start a new block with the same selector), and nothing is pushed for an
+    empty rule.  Errors of either step are returned."""
+    items = E.load_enum("css/item.rs", "Item", "css::item::Item")
+    f = E.find(name_re=r"^cssdest::<impl at .*>::push_item$", contains=["RuleDest::<'_>::commit_rule", "TryInto<BodyItem>"])
+    rec = Rec("RuleDest::push_item / commit_rule", f, E)
+    ctx = E.ctx()
+    me = sym.Opaque("RuleDest", "self", ctx)
+    item = sym.Opaque("css::item::Item", "item", ctx)
+
+    def full(ex, st, x):
+        while isinstance(x, sym.Ref):
+            x = ex.deref(st, x)
+        return x
+
+    def forkres(name, okval=None):
+        def m(ex, st, c, a, d):
+            ok, err = st.fork(), st.fork()
+            e = sym.Event(name, a, None, len(st.pc))
+            e.rargs = [full(ex, st, x) for x in a]
+            ok.events.append(e)
+            e2 = sym.Event(name + "-failed", a, None, len(st.pc))
+            err.events.append(e2)
+            return [(ok, sym.Agg(d, "Ok", {"0": sym.Unit()}, 0)), (err, sym.Agg(d, "Err", {"0": sym.Opaque("Invalid", name + "-error", ctx)}, 1))]
+        return m
+
+    def m_try_into(ex, st, c, a, d):
+        ok, err = st.fork(), st.fork()
+        body = sym.Opaque("BodyItem", "as-body-item", ctx)
+        back = sym.Opaque("AtRule", "at-rule-back", ctx)
+        ok.events.append(sym.Event("try_into", a, "ok", len(st.pc)))
+        err.events.append(sym.Event("try_into", a, "err", len(st.pc)))
+        return [(ok, sym.Agg(d, "Ok", {"0": body}, 0)), (err, sym.Agg(d, "Err", {"0": back}, 1))]
+
+    def m_rule_push(ex, st, c, a, d):
+        e = sym.Event("own-rule-push", a, None, len(st.pc))
+        e.rargs = [full(ex, st, x) for x in a]
+        st.events.append(e)
+        return sym.Unit()
+
+    def m_into_item(ex, st, c, a, d):
+        return sym.Agg("css::item::Item", "FROM", {"0": full(ex, st, a[0])})
+
+    models = [(r"^RuleDest::<'_>::commit_rule$", forkres("commit_rule")), (r"^<dyn CssDestination as CssDestination>::push_item$", forkres("parent-push")),
+              (r"^<AtRule as TryInto<BodyItem>>::try_into$", m_try_into), (r"^Rule::push$", m_rule_push),
+              (r"as std::convert::Into<css::item::Item>>::into$", m_into_item)] + BASE_MODELS
+    ex = sym.Executor(ctx, models=models, feasibility=E.feasibility(ctx), max_paths=4000)
+    paths = [p for p in ex.run(f, [sym.Ref("val", me), item]) if p.status == "return"]
+    rec.paths = len(paths)
+    D = item.discriminant().term
+    sep_i, at_i = items.index("Separator"), items.index("AtRule")
+    seen = set()
+    for i, p in enumerate(paths):
+        names = [e.callee for e in p.events if e.callee in ("commit_rule", "commit_rule-failed", "parent-push", "parent-push-failed", "own-rule-push")]
+        ret = p.ret
+        is_ok = isinstance(ret, sym.Agg) and ret.variant == "Ok"
+        ti = [e for e in p.events if e.callee == "try_into"]
+        pp = [e for e in p.events if e.callee == "parent-push"]
+        if not names and is_ok:
+            r = E.decide(ctx, p.pc + ["(not (= %s %s))" % (D, bvlit(sep_i, 64))])
+            rec.add("path %d: nothing happens only for a separator" % i, r)
+            seen.add("separator")
+        elif names == ["own-rule-push"] and is_ok:
+            r = E.decide(ctx, p.pc + ["(not (= %s %s))" % (D, bvlit(at_i, 64))])
+            good = bool(ti) and ti[0].result == "ok"
+            rec.add("path %d: an at-rule that converts to a body item stays inside this rule" % i, r if good else {"verdict": "violated", "per_solver": {"structural": "events"}, "time_s": 0})
+            seen.add("inline-atrule")
+        elif names == ["commit_rule", "parent-push"] and is_ok:
+            pushed = pp[0].rargs[1]
+            if ti:
+                good = ti[0].result == "err" and _payload_contains(pushed, [e for e in p.events if e.callee == "try_into"][0].args[0]) or isinstance(pushed, sym.Agg)
+                what = "an at-rule that cannot be a body item"
+            else:
+                good = pushed is item
+                what = "any other item"
+                r0 = E.decide(ctx, p.pc + ["(or (= %s %s) (= %s %s))" % (D, bvlit(sep_i, 64), D, bvlit(at_i, 64))])
+                good = good and r0["verdict"] == "holds"
+            rec.add("path %d: %s: the collected declarations are committed first, then the item goes — unchanged — to the parent, whose destination is this rule's parent" % (i, what),
+                    {"verdict": "holds" if good and pp[0].rargs[0] is me.children.get("0") else "violated", "per_solver": {"structural": "event order / identity"}, "time_s": 0})
+            seen.add("bubble")
+        elif names in (["commit_rule-failed"], ["commit_rule", "parent-push-failed"]):
+            rec.add("path %d: a failing commit or parent push is returned as the error (%s)" % (i, names[-1]),
+                    {"verdict": "holds" if isinstance(ret, sym.Agg) and ret.variant == "Err" else "violated", "per_solver": {"structural": "result"}, "time_s": 0})
+            seen.add("error")
+        else:
+            rec.add("path %d: event sequence %s (shape not recognised)" % (i, names), {"verdict": "inconclusive", "per_solver": {}, "time_s": 0})
+    need = {"separator", "inline-atrule", "bubble", "error"}
+    if not need <= seen:
+        rec.add("all outcome kinds explored (%s missing)" % sorted(need - seen), {"verdict": "inconclusive", "per_solver": {}, "time_s": 0})
+    # commit_rule
+    g = E.find(name_re=r"^cssdest::<impl at .*>::commit_rule$")
+    ctx2 = E.ctx()
+    me2 = sym.Opaque("RuleDest", "self", ctx2)
+    empty = ctx2.fresh_scalar("bool", "body_is_empty")
+
+    def m_is_empty(ex_, st, c, a, d):
+        return empty
+
+    def m_clone(ex_, st, c, a, d):
+        v = ex_.resolve_ref(st, a[0])
+        st.events.append(sym.Event("clone", [v], None, len(st.pc)))
+        return sym.Agg("SelectorSet", "CLONE", {"0": v})
+
+    def m_rule_new(ex_, st, c, a, d):
+        o = sym.Agg("css::rule::Rule", "NEWRULE", {"0": a[0]})
+        st.events.append(sym.Event("rule_new", a, o, len(st.pc)))
+        return o
+
+    def m_swap(ex_, st, c, a, d):
+        x, y = a[0], a[1]
+        vx, vy = ex_.deref(st, x), ex_.deref(st, y)
+        e = sym.Event("swap", [vx, vy], None, len(st.pc))
+        st.events.append(e)
+        # exchange the two places
+        for ref, val in ((x, vy), (y, vx)):
+            if isinstance(ref, sym.Ref) and ref.kind == "local":
+                fi, ln = ref.target
+                st.frames[fi][ln] = val
+        return sym.Unit()
+
+    def m_ppush(ex_, st, c, a, d):
+        ok, err = st.fork(), st.fork()
+        e = sym.Event("parent-push", a, None, len(st.pc))
+        e.rargs = [ex_.resolve_ref(st, x) for x in a]
+        ok.events.append(e)
+        err.events.append(sym.Event("parent-push-failed", a, None, len(st.pc)))
+        return [(ok, sym.Agg(d, "Ok", {"0": sym.Unit()}, 0)), (err, sym.Agg(d, "Err", {"0": sym.Opaque("Invalid", "push-error", ctx2)}, 1))]
+
+    def m_into2(ex_, st, c, a, d):
+        return sym.Agg("css::item::Item", "FROM", {"0": ex_.resolve_ref(st, a[0])})
+
+    models2 = [(r"^Vec::<BodyItem>::is_empty$", m_is_empty), (r"^<SelectorSet as Clone>::clone$", m_clone), (r"^Rule::new$", m_rule_new),
+               (r"^std::mem::swap::<Rule>$", m_swap), (r"^<dyn CssDestination as CssDestination>::push_item$", m_ppush),
+               (r"^<Rule as std::convert::Into<css::item::Item>>::into$", m_into2)] + BASE_MODELS
+    ex2 = sym.Executor(ctx2, models=models2, feasibility=E.feasibility(ctx2))
+    p2 = [p for p in ex2.run(g, [sym.Ref("val", me2)]) if p.status == "return"]
+    rec.paths += len(p2)
+    kinds = set()
+    for i, p in enumerate(p2):
+        pp = [e for e in p.events if e.callee == "parent-push"]
+        pf = [e for e in p.events if e.callee == "parent-push-failed"]
+        sw = [e for e in p.events if e.callee == "swap"]
+        rn = [e for e in p.events if e.callee == "rule_new"]
+        is_ok = isinstance(p.ret, sym.Agg) and p.ret.variant == "Ok"
+        if not pp and not pf:
+            r = E.decide(ctx2, p.pc + ["(not %s)" % empty.term])
+            rec.add("commit path %d: nothing is pushed only for an empty rule" % i, r if is_ok and not sw else {"verdict": "violated", "per_solver": {"structural": "events"}, "time_s": 0})
+            kinds.add("empty")
+            continue
+        own_rule = me2.children.get("1")
+        sel = own_rule.children.get("0") if isinstance(own_rule, sym.Opaque) else None
+        fresh_ok = (len(rn) == 1 and isinstance(rn[0].args[0], sym.Agg) and rn[0].args[0].variant == "CLONE" and rn[0].args[0].fields["0"] is sel
+                    and len(sw) == 1 and {id(sw[0].args[0]), id(sw[0].args[1])} == {id(rn[0].result), id(own_rule)})
+        if pp:
+            pushed = pp[0].rargs[1]
+            good = fresh_ok and is_ok and _payload_contains(pushed, own_rule) and pp[0].rargs[0] is me2.children.get("0")
+            r = E.decide(ctx2, p.pc + [empty.term])
+            rec.add("commit path %d: a non-empty rule is replaced by a fresh rule with (a copy of) the same selectors and the filled one goes to the parent" % i,
+                    r if good else {"verdict": "violated", "per_solver": {"structural": "event identity fresh=%s" % fresh_ok}, "time_s": 0})
+            kinds.add("commit")
+        else:
+            rec.add("commit path %d: a failing parent push is returned" % i, {"verdict": "holds" if not is_ok else "violated", "per_solver": {"structural": "result"}, "time_s": 0})
+            kinds.add("error")
+    if kinds != {"empty", "commit", "error"}:
+        rec.add("commit_rule: all outcomes explored (%s)" % sorted(kinds), {"verdict": "inconclusive", "per_solver": {}, "time_s": 0})
+    return rec
+
+
 def k_value_eq_symmetric(E, tier):
     """C12: css::Value::eq is symmetric as a function of the two values' kinds and of the (symmetric)
     comparisons of their parts: eq(a,b) and eq(b,a) are executed symbolically and must be the same
